@@ -55,7 +55,8 @@ class Sut:
                 import hl7apy
                 from worlds import valorder_world as VO
                 mp = hl7apy.load_message_profile(VO.PROFILE)
-                e = parser.parse_message(text, validation_level=level, message_profile=mp)
+                e = parser.parse_message(text, validation_level=level, message_profile=mp,
+                                         find_groups=spec.get('find_groups', True))
             elif text is not None:
                 e = parser.parse_message(text, validation_level=level, find_groups=False)
             else:
@@ -302,6 +303,14 @@ class Sut:
                 h.parent = P
             else:
                 P.add(h)
+            return None
+        if k == 'held_set':
+            h = self.held.get(op['reg'])
+            if h is None:
+                raise NavError('nothing held in register %r' % op['reg'])
+            hp = op['hp']
+            attr = self.attr_of(ri, hp, op['c'])
+            setattr(h, attr, op['text'])
             return None
         if k == 'held_value':
             h = self.held.get(op['reg'])
@@ -711,6 +720,13 @@ class HistoryWorld:
         if k == 'grab':
             sut.held_nodes[op['reg']] = EM.resolve(root, mpath)
             return (0, 0)
+        if k == 'held_set':
+            # a write through a handle obtained earlier by reading the same path: same as writing there now
+            hpath = [(t_, k_, r_) for t_, k_, r_, s_ in op['hp']]
+            parent, _ = EM.ensure_path(root, hpath)
+            t, key, r, sp = op['c']
+            EM.op_set(parent, t, key, 0, EM.node_from_text(t, key, op['text'], ec))
+            return done()
         if k == 'attach_held':
             node = sut.held_nodes.get(op['reg'])
             parent = EM.resolve(root, mpath)
@@ -810,14 +826,17 @@ class HistoryWorld:
                         s.clean_start = None
 
     def step(self, op, step):
-        results = []
-        for s in self.suts:
+        results = [None] * len(self.suts)
+        order = list(range(len(self.suts)))
+        if self.twin and self.case.get('twin_order') == 'tolerant_first':
+            order.reverse()          # process-level memory of one level must not leak into the other
+        for si in order:
+            s = self.suts[si]
             if not s.alive:
-                results.append(None)
                 continue
             read_like = op['k'] in ('read', 'validate')
             before = s.snapshot(with_validate=read_like and op.get('deep', True))
-            ids_before = s.all_ids() if op['k'] in ('set', 'add', 'value') and op.get('via') not in ('parent_kw', 'parent_attr') else None
+            ids_before = s.all_ids() if op['k'] in ('set', 'add', 'value', 'held_set') and op.get('via') not in ('parent_kw', 'parent_attr') else None
             self.fs.reset()
             try:
                 ret = s.apply(op)
@@ -829,7 +848,7 @@ class HistoryWorld:
                 ret, exc = None, ex
             s.last_exc = exc
             after = s.snapshot(with_validate=read_like and op.get('deep', True))
-            results.append((exc, ret))
+            results[si] = (exc, ret)
             okey = self.op_key(op)
             self.log.append((step, s.tag, okey, 'EXC ' + canon_exc(exc) if exc is not None else 'ok',
                              hashlib.sha1(repr([x[:2] for x in after]).encode()).hexdigest()[:10]))
